@@ -56,6 +56,7 @@ type execExtra struct {
 	addrObjs        []*Object
 	panicFrames     []*frame
 	tasks           []task
+	inTask          int
 	mapOrderReverse bool
 }
 
